@@ -49,7 +49,7 @@ Palette == <<
   {"proc"},                            \* 28 a continuation
   {"macro"},                           \* 29 a macro keyword's value
   {"void"},                            \* 30 the unspecified value
-  {"num", "int", "exact", "index"},    \* 31 1000000
+  {"num", "int", "exact", "index"},    \* 31 100000 (an allocation size within the 10^6 bound of the property)
   {"bool"}                             \* 32 #t
 >>
 NPal == Len(Palette)
